@@ -135,7 +135,10 @@ impl<'a, P: for<'p> Protocol<'p>> DemoWriter<'a, P> {
         // They don't rely on the last keyframe.
         // For that, we always need to store the newest snap.
         self.snap = new_snap;
-        self.builder = old_snap.recycle();
+        // Extended item types must keep their type ID from one snap to the
+        // next, so the next builder starts from the snap just written.
+        drop(old_snap);
+        self.builder = self.snap.clone().recycle();
         self.buf.clear();
         self.last_tick = tick;
         if is_keyframe {
